@@ -40,7 +40,7 @@ func Profiles() map[string]Profile {
 	if extraProfiles != nil {
 		extraProfiles(add)
 	}
-	add(Profile{Name: "C01", W: map[string]int{"write": 50, "ingest": 8, "excise": 3, "ingestexcise": 3, "maint": 12, "get": 10, "scan": 6, "batchw": 5, "sdelchain": 4, "extingest": 5},
+	add(Profile{Name: "C01", W: map[string]int{"write": 50, "ingest": 8, "excise": 3, "ingestexcise": 3, "maint": 12, "get": 10, "scan": 6, "batchw": 5, "sdelchain": 4, "extingest": 5, "ingestpair": 3},
 		ScanLatest: true, GetLatest: 3, RangeKeys: 1})
 	add(Profile{Name: "C03", W: map[string]int{"write": 45, "ingest": 6, "maint": 20, "snap": 12, "close": 6, "readsnap": 12},
 		ReadSnaps: true, RangeKeys: 1, MaxSnaps: 3})
@@ -56,7 +56,7 @@ func Profiles() map[string]Profile {
 		RangeKeys: 4, MaxIters: 2, IterCls: "mask", Masks: true})
 	add(Profile{Name: "C14", W: map[string]int{"write": 35, "ingest": 6, "maint": 30, "snap": 8, "viewiter": 6, "close": 4, "efos": 3, "sdelchain": 4},
 		ReadSnaps: true, ReadIters: true, ScanLatest: true, RangeKeys: 1, MaxSnaps: 2, MaxIters: 2, IterCls: "view"})
-	add(Profile{Name: "C36", W: map[string]int{"write": 25, "ingest": 25, "excise": 10, "ingestexcise": 10, "maint": 10, "viewiter": 6, "snap": 3, "close": 4, "extingest": 8},
+	add(Profile{Name: "C36", W: map[string]int{"write": 25, "ingest": 25, "excise": 10, "ingestexcise": 10, "maint": 10, "viewiter": 6, "snap": 3, "close": 4, "extingest": 8, "ingestpair": 6},
 		ScanLatest: true, GetLatest: 2, ReadIters: true, RangeKeys: 2, MaxIters: 2, MaxSnaps: 1, IterCls: "view"})
 	add(Profile{Name: "C37", W: map[string]int{"write": 35, "ingest": 6, "excise": 8, "ingestexcise": 6, "maint": 14, "efos": 10, "waitfileonly": 6, "close": 4},
 		ReadSnaps: true, RangeKeys: 1, MaxSnaps: 2})
@@ -926,6 +926,8 @@ func (g *Gen) Step() {
 		g.actExtIngest()
 	case "extmask":
 		g.actExtMask()
+	case "ingestpair":
+		g.actIngestPair()
 	case "straddle":
 		g.actStraddle()
 	case "sdelchain":
